@@ -176,9 +176,25 @@ def R3_reposition_info(run):
                 for l in leaves(pv.local(0, bi, len(bb["s"]))):
                     if l[0] == "agg" and l[2] == "Ok":
                         ret = dict(l[3])["0"]
-            t = bb["t"]
-            if t["k"] == "call" and (callee_path(t) or "").endswith("assert_new_range_token_increase_under_max") and pv.flow.state_in[bi] is not None:
-                asr = [pv.operand(a, bi, len(bb["s"])) for a in t["a"]]
+        # the maximum check, read with assert_new_range_token_increase_under_max spliced in: the one test failing with
+        # TokenMaxExceeded, (new_range_increase_amount checked_add contribution)? > token_max, passed by every successful return
+        infeasible = [b_ for b_ in range(len(fn.blocks)) if pv.flow.state_in[b_] is None]
+        for at in A.atoms(fn):
+            if pv.flow.state_in[at.block] is None or "TokenMaxExceeded" not in (at.true_codes | at.false_codes):
+                continue
+            for (op, x, y) in fail_conditions(at):
+                for (o, p_, q_) in ((op, x, y), (A.SWAP[op], y, x)):
+                    if o == "Gt" and is_param(q_, "token_max"):
+                        s_ = strip(p_)
+                        if s_[0] == "call" and s_[1].endswith("ok_or") and is_call(s_[2][0], "checked_add") and not cfg.success_reach(fn, 0, cut_blocks=infeasible + [at.block]):
+                            cs_ = strip(s_[2][0])
+                            ca = cs_[2]
+                            sites = [bi_ for bi_, t_ in fn.calls() if (callee_path(t_) or "") == cs_[1] and pv.flow.state_in[bi_] is not None and not fn.blocks[bi_]["c"]]
+                            if len(sites) == 1:
+                                # the operands as they are under this direction
+                                cb = sites[0]
+                                ca = [pv.operand(o_, cb, len(fn.blocks[cb]["s"])) for o_ in fn.blocks[cb]["t"]["a"]]
+                            asr = [ca[0], ca[1], q_]
         ok = ret is not None and ret[0] == "tuple" and asr is not None
         if ok:
             amt, fee, flag = [strip(x) for x in ret[1]]
@@ -195,18 +211,6 @@ def R3_reposition_info(run):
         run.check("R3", "info[from_owner=%d]" % val, ok, "calculate_token_transfer_info(from_owner=%s) returns %s and checks the max with %s" % (
             val, sh(ret, 200) if ret else None, [sh(x, 60) for x in asr] if asr else None), loc=fn.loc(),
             detail="user pays: included amount/fee, fee counted; pool pays: raw delta, excluded fee, 0" )
-    g = facts.need_fn("pinocchio::instructions::reposition_liquidity_v2::assert_new_range_token_increase_under_max")
-    ok = False
-    for at in A.atoms(g):
-        for (op, a, b) in fail_conditions(at):
-            for (o, x, y) in ((op, a, b), (A.SWAP[op], b, a)):
-                if o == "Gt" and is_param(y, "token_max") and "TokenMaxExceeded" in (at.true_codes | at.false_codes):
-                    s = strip(x)
-                    if s[0] == "call" and s[1].endswith("ok_or") and is_call(s[2][0], "checked_add"):
-                        ca = strip(s[2][0])[2]
-                        ok = is_param(ca[0], "new_range_amount") and is_param(ca[1], "transfer_fee")
-    run.check("R3", "max-check", ok, "assert_new_range_token_increase_under_max is not (new_range_amount checked_add transfer_fee) > token_max => TokenMaxExceeded", loc=g.loc(),
-              detail="new + fee > max => TokenMaxExceeded")
 
 
 def R4_helpers(run):
